@@ -24,6 +24,7 @@ import (
 func init() {
 	commands["conn-c02"] = func(w string) { runConn(w, "C02") }
 	commands["conn-c03"] = func(w string) { runConn(w, "C03") }
+	commands["conn-c05"] = func(w string) { runConn(w, "C05") }
 	commands["conn-c06"] = func(w string) { runConn(w, "C06") }
 	commands["conn-c19"] = func(w string) { runConn(w, "C19") }
 }
@@ -61,6 +62,7 @@ type hcall struct {
 	replyAtAbandon  []byte
 	written         bool // its request write returned nil
 	startedAfterCut bool
+	decodedIdx      int // C05: position of its response among the decoded ones (0 = none counted)
 }
 
 type connRun struct {
@@ -82,6 +84,8 @@ type connRun struct {
 	arrivedQ     []arrived // frames fed and not yet decoded
 	cutDone      bool
 	closedBefore bool
+	nDecoded     int
+	c05Reported  bool
 }
 
 type arrived struct {
@@ -273,6 +277,29 @@ func (r *connRun) record(act, human string) {
 	defer func() { r.closedBefore = r.closed }()
 	r.trace = append(r.trace, human)
 	r.steps = append(r.steps, "("+act+", "+r.observe()+")")
+	r.orderOracle()
+}
+
+// C05, client half: with client pipelining the completions that result from
+// decoded responses are signalled in the order the responses were decoded,
+// successes and errors alike.  Judged only while the connection is intact
+// (the end of a connection completes what is left in one sweep).
+func (r *connRun) orderOracle() {
+	if !r.pipelining || r.readerDead || r.closed || r.c05Reported {
+		return
+	}
+	for _, b := range r.calls {
+		if b.decodedIdx == 0 || b.abandoned || r.doneCount(b) == 0 {
+			continue
+		}
+		for _, a := range r.calls {
+			if a.decodedIdx != 0 && a.decodedIdx < b.decodedIdx && !a.abandoned && r.doneCount(a) == 0 {
+				r.c05Reported = true
+				r.e.fail("C05-client-completion-overtakes", fmt.Sprintf("client pipelining: call %d was signalled complete while call %d, whose response was decoded earlier, was not", b.id, a.id), r.replay())
+				return
+			}
+		}
+	}
 }
 
 func (r *connRun) replay() interface{} {
@@ -367,6 +394,10 @@ func (r *connRun) decode() {
 				reg = true
 			}
 		}
+		if reg && !a.closedAtPickup && c.decodedIdx == 0 && c.kind != kPing && !c.abandoned && !r.readerDead && !r.closed {
+			r.nDecoded++
+			c.decodedIdx = r.nDecoded
+		}
 		if reg && !a.closedAtPickup && !c.respArrived && c.expectErrTxt == "" {
 			if a.errT != "" {
 				c.expectErrTxt = a.errT
@@ -448,6 +479,9 @@ func (r *connRun) choices(prop string) []choice {
 		if prop == "C19" {
 			kinds = []int{kCtx, kCtx, kCtx, kGo, kCall}
 		}
+		if prop == "C05" {
+			kinds = []int{kGo, kGo, kGo, kGo, kRoundTrip, kPing}
+		}
 		k := kinds[e.Rng.Intn(len(kinds))]
 		cs = append(cs, choice{w, func() { r.start(k) }, "start"})
 	}
@@ -470,7 +504,10 @@ func (r *connRun) choices(prop string) []choice {
 			}
 			body := []byte{0xA0, byte(c.id), byte(e.Rng.Intn(256))}
 			switch e.Rng.Intn(8) {
-			case 0:
+			case 0, 7:
+				if prop != "C05" && e.Rng.Intn(2) == 0 {
+					break
+				}
 				body = nil
 			case 1:
 				body = []byte{0xBD, 1} // undecodable body
@@ -629,6 +666,35 @@ func (r *connRun) script(name string) {
 		r.arrive("resp", r.calls[1], "handler failed", nil)
 		r.decode()
 		r.decode()
+	case "held-success-then-empty-then-error": // C05: a reply held in its body decode, then an empty reply and an error response
+		if !r.pipelining {
+			return
+		}
+		for k := 0; k < 4; k++ {
+			r.start(kGo)
+		}
+		for len(r.msgs.writeGate.list()) > 0 {
+			r.writeRet(r.msgs.writeGate.list()[0], "")
+		}
+		feed := []func(){
+			func() { r.arrive("resp", r.calls[0], "", []byte{0xA0, 0, 1}) },
+			func() { r.arrive("resp", r.calls[1], "", nil) },
+			func() { r.arrive("resp", r.calls[2], "handler failed", nil) },
+			func() { r.arrive("resp", r.calls[3], "", []byte{0xBD, 1}) },
+		}
+		if r.directIO { // the reader decodes each frame itself before it reads the next
+			for _, f := range feed {
+				f()
+				r.decode()
+			}
+		} else {
+			for _, f := range feed {
+				f()
+			}
+			for range feed {
+				r.decode()
+			}
+		}
 	case "ctx-late-response":
 		r.start(kCtx)
 		r.writeRet(r.msgs.writeGate.list()[0], "")
@@ -638,7 +704,7 @@ func (r *connRun) script(name string) {
 	}
 }
 
-var connScripts = []string{"F1-double-completion", "F2-received-then-eof", "response-then-write-fails", "close-then-calls", "error-then-success", "ctx-late-response"}
+var connScripts = []string{"F1-double-completion", "F2-received-then-eof", "response-then-write-fails", "close-then-calls", "error-then-success", "ctx-late-response", "held-success-then-empty-then-error"}
 
 func runConn(work, prop string) {
 	e := newEnv(prop, "conn", work)
@@ -669,8 +735,14 @@ func runConn(work, prop string) {
 	}
 	for i := 0; i < n; i++ {
 		m := modes[i%4]
+		if prop == "C05" {
+			m = modes[2+i%2] // client pipelining only
+		}
 		r := newConnRun(e, m[0], m[1])
 		steps := 4 + e.Rng.Intn(14)
+		if prop == "C05" {
+			steps += 6
+		}
 		for s := 0; s < steps; s++ {
 			cs := r.choices(prop)
 			if len(cs) == 0 {
